@@ -3,9 +3,11 @@ claim('C03', 'Coq theorems (model interpreters vs arithmetic specification) + ex
       'Theorems over all widths/values: two\'s complement, big-endian digits, BytesInteger/FormatField build and parse at '
       'the interpreter level, LEB128 as a relation (soundness, completeness, rejection of unterminated input), ZigZag '
       'bijection. The model is the reference; the library is compared with the extracted model on exhaustive 8-bit domains, '
-      'boundaries and PRNG samples, so a disagreement is itself the failing input. Half-precision floats exhaustively (all 65536 patterns '
-      'widen and narrow back; NaNs canonicalised: a finite sweep evaluated by the kernel, lifted to the quantified statement). Single and '
-      'double floats, strings and composites are tied by correspondence only (stated as partial in the evidence).', 'DESIGN.md 6/C03')
+      'boundaries and PRNG samples, so a disagreement is itself the failing input. Floats: every binary16 pattern (finite sweep evaluated by the '
+      'kernel, lifted to the quantified statement), every binary32 and binary64 pattern (single_roundtrip / double_identity: arithmetic on the '
+      'round-to-nearest-even function, normal / subnormal / zero / infinity; NaNs canonicalised) widens to a double that narrows back to it, and '
+      'the Float16/32/64 fields reproduce the bytes they parsed (float*_parse_then_build). Narrowing of doubles that are not representable, '
+      'strings and composites are tied by correspondence only (stated as partial in the evidence).', 'DESIGN.md 6/C03')
 claim('C05', 'Coq theorems (sizeof discipline over all constructs; exactness by induction over the closed sequential fragment) + correspondence + sizeof/build/parse oracle',
       'sizeof_nokey: for EVERY construct of the model (59 classes, any nesting), context and path, sizeof never reports a missing '
       'key as KeyError/AttributeError. build_size_exact / C05_exact_closed: for every construct of the closed sequential fragment '
@@ -83,7 +85,7 @@ claim('C02', 'Coq theorems (build after parse is stable, by induction over the s
       'same bytes again, at any position, in any context; hence C02_reproduced_exactly (bytes the construct produced are reproduced) and '
       'C02_reencoding_is_idempotent (after one accepted re-encoding of ANY input nothing changes any more). dep_rebuild: the same for dependent layouts '
       '(sizes and Switch / IfThenElse choices read from earlier integer fields). Struct members may be named or anonymous constants / padding '
-      '(anon_det). half_roundtrip: every non-NaN Float16 pattern is reproduced, NaNs are canonicalised (all 65536 patterns). '
+      '(anon_det). float16/32/64_parse_then_build: every non-NaN pattern of a float field is reproduced by build(parse(.)), NaNs are canonicalised. '
       'C01_roundtrip_closed gives the parse half; bytesint_parse_then_build (one encoding per value), '
       'varint_normalises (non-minimal accepted, canonical emitted, stable), flag_canonical. The oracle evaluates build(parse(x)) idempotence '
       'on the implementation for non-canonical inputs (non-minimal VarInts, all flag bytes, padding, trailing bytes in regions, duplicate '
